@@ -10,7 +10,7 @@ from ..model import AnalysisError, unparse
 from ..report import RuleResult
 from ..roles import bound_from, calls, returned_names
 from ..tables import WriterTables
-from ._c01_paths import Paths, Sym, attr_name, conjuncts, expand_generators, neg, default_of, kind_of, kw, make_call_eval, never_none_fields, norm, record_fields, show_set, sources, specialise, view
+from ._c01_paths import Paths, Sym, attr_name, conjuncts, expand_generators, mk_and, neg, default_of, kind_of, kw, make_call_eval, never_none_fields, norm, record_fields, show_set, sources, specialise, view
 from .c06 import rule_own as _c06_own
 
 
@@ -902,6 +902,7 @@ def rule_unlink(ctx) -> RuleResult:
     if not loops:
         raise AnalysisError("Workspace.remove_children: loop over the children not found")
     unlinks, per_child, covered = 0, True, {}
+    moved_first = _rebinds_before_unlink(ctx, p)
     kinds = {"Group": p.cls("Group"), "ObjectBase": p.cls("ObjectBase"), "Data": p.cls("Data", "data.data"), "PropertyGroup": p.cls("PropertyGroup")}
     for lp in loops:
         roles = {lp.target.id: "R_child", par_p: "R_parent"}
@@ -925,8 +926,13 @@ def rule_unlink(ctx) -> RuleResult:
                 tg = Pk.call_nodes(lambda c, Pk=Pk: attr_name(c) == "_io_call" and len(c.args) > 3 and Pk.text(c.args[0]) == "H5Writer.remove_child" and Pk.text(c.args[3]) == "R_parent", within=lp)
             # the obligation is about a child OF the given parent: a skip decided by "this child belongs to another parent" (a test
             # relating the child's own parent / the parent's own lists to the `parent` parameter) is not a missed unlink
-            belongs = Pk.conj("R_child.parent is R_parent and R_child.parent == R_parent and R_child.parent.uid == R_parent.uid "
-                              "and R_child in R_parent.children and R_child in R_parent.property_groups")
+            # That test is only meaningful for a kind whose `parent` still names the holder when the request arrives: an entity that
+            # is being moved has its parent re-bound before the previous holder is asked to drop it (Entity.parent setter), and the
+            # holder has already taken it off its own lists.
+            belongs = frozenset()
+            if kname == "PropertyGroup" or not moved_first:
+                belongs = Pk.conj("R_child.parent is R_parent and R_child.parent == R_parent and R_child.parent.uid == R_parent.uid "
+                                  "and R_child in R_parent.children and R_child in R_parent.property_groups")
             covered[kname] = covered.get(kname, False) or bool(tg) and Pk.must(body, tg, belongs, fail=[nxt])
     chk(unlinks > 0 and per_child, "remove_children: remove_child(<child>.uid, <container of that child>, parent)", "Workspace", "remove_children",
         "the link container is not derived from the child being unlinked", rc0.where,
@@ -934,6 +940,31 @@ def rule_unlink(ctx) -> RuleResult:
     missing = sorted(k for k in kinds if not covered.get(k))
     chk(not missing, f"remove_children: every child of kind {sorted(kinds)} is unlinked on every path of the loop", "Workspace", "remove_children",
         f"children of kind {missing} are not unlinked on every path", rc0.where, "a detached child stays linked in the file and is back after re-opening")
+
+    # --- <holder>.remove_children(children): everything the holder was asked to drop is handed to Workspace.remove_children
+    n_fwd = 0
+    for K in p.classes:
+        fn0 = K.methods.get("remove_children")
+        if fn0 is None or K is ws or len(fn0.params) < 2:
+            continue
+        fn = expand_generators(ctx, view(ctx, fn0))
+        req = fn0.params[1]
+        P = Paths(fn.node)
+        for call in [x for x in ast.walk(fn.node) if isinstance(x, ast.Call) and attr_name(x) == "remove_children" and isinstance(x.func, ast.Attribute)
+                     and P.text(x.func.value).endswith("workspace") and len(x.args) == 2 and P.text(x.args[0]) == "self"]:
+            n_fwd += 1
+            src, flt = _filtered(P, call.args[1])
+            texts = _literal_texts(flt)
+            own_list = lambda t: t.startswith("R_item in self.")  # noqa: E731
+            by_parent = lambda t: "R_item.parent" in t or "R_item._parent" in t  # noqa: E731
+            extra = sorted(t for t in texts if not (own_list(t) or t == "R_item is None" or by_parent(t) and not moved_first))
+            ok = _is_request(src, req) and not extra
+            chk(ok, f"{K.name}.remove_children forwards the requested children to the workspace (filter: {sorted(texts)})", K.name, "remove_children",
+                "not every requested child is handed to Workspace.remove_children", fn0.where,
+                f"children left out of the request to the file ({extra or unparse(src)}) keep their link under this parent: a child that is being moved (its parent is re-bound before "
+                "the previous parent is asked to drop it) stays linked under the previous parent and is loaded there again")
+    if n_fwd < 2:
+        raise AnalysisError(f"holders forwarding to Workspace.remove_children: {n_fwd} found (EntityContainer / ObjectBase expected)")
 
     # --- H5Writer.remove_entity(file, uid, ref_type, parent=None)
     re0 = W.methods.get("remove_entity")
@@ -958,6 +989,51 @@ def rule_unlink(ctx) -> RuleResult:
         chk(ok, f"H5Writer.remove_entity({cont}): with a parent, the link under the parent is removed too", "H5Writer", "remove_entity",
             "the link under the given parent is not removed on every path", re0.where, "the removed entity stays listed under its parent in the file")
     return res
+
+
+def _rebinds_before_unlink(ctx, p) -> bool:
+    """Entity.parent setter: is `self._parent` re-bound on a path before the previous parent is asked to remove_children([self])?
+    (then `child.parent` does not name the holder any more when the request to unlink arrives)"""
+    E = p.cls("Entity")
+    pr = E.props.get("parent")
+    if pr is None or pr.setter is None:
+        return False
+    sv = view(ctx, pr.setter)
+    P = Paths(sv.node)
+    stores = P.stmt_nodes(lambda s: _self_store(s, "_parent"))
+    drops = P.call_nodes(lambda c: attr_name(c) == "remove_children" and any(P.text(x) == "self" for a in c.args for x in ast.walk(a) if isinstance(x, ast.Name)))
+    return bool(stores) and bool(drops) and P.reaches(P.after(stores), drops)
+
+
+def _is_request(e, req) -> bool:
+    """e is the `req` parameter as a list: req, list(req), [req] (a single item wrapped), or a conditional between such forms."""
+    if isinstance(e, ast.Name):
+        return e.id == req
+    if isinstance(e, ast.Call) and isinstance(e.func, ast.Name) and e.func.id in ("list", "tuple") and len(e.args) == 1 and not e.keywords:
+        return _is_request(e.args[0], req)
+    if isinstance(e, (ast.List, ast.Tuple)) and len(e.elts) == 1:
+        return _is_request(e.elts[0], req)
+    if isinstance(e, ast.IfExp):
+        return _is_request(e.body, req) and _is_request(e.orelse, req)
+    return False
+
+
+def _filtered(P, expr):
+    """(source, filter formula over R_item) of a list expression: `xs`, `list(xs)`, `[c for c in xs if F(c)]` (through locals)."""
+    e = P.X(expr)
+    flt = True
+    for _ in range(4):
+        if isinstance(e, ast.Call) and isinstance(e.func, ast.Name) and e.func.id in ("list", "tuple") and len(e.args) == 1 and not e.keywords:
+            e = e.args[0]
+        elif isinstance(e, (ast.ListComp, ast.GeneratorExp)) and len(e.generators) == 1 and isinstance(e.generators[0].target, ast.Name) \
+                and isinstance(e.elt, ast.Name) and e.elt.id == e.generators[0].target.id:
+            g = e.generators[0]
+            ren = Sym(None, roles={g.target.id: "R_item"}, defs={})
+            flt = mk_and([flt] + [P.formula(ren.X(c)) for c in g.ifs])
+            e = g.iter
+        else:
+            break
+    return e, flt
 
 
 def _present(P, dels) -> frozenset:
